@@ -166,6 +166,10 @@ pub struct KnownFile {
 }
 
 pub fn load_known() -> KnownFile {
+    // triage aid: report everything, as if nothing were pinned
+    if std::env::var("VERIF_IGNORE_KNOWN").is_ok() {
+        return KnownFile::default();
+    }
     let p = format!("{VERIF_DIR}/known_findings.json");
     match std::fs::read_to_string(&p) {
         Ok(s) => serde_json::from_str(&s).unwrap_or_default(),
@@ -423,11 +427,13 @@ pub fn run_check(prop: &str, tier: Tier, seed: u64) -> i32 {
         by_class.entry(v.class.clone()).or_default().push((*run, v.clone()));
     }
     let mut suppressed_known = 0u64;
+    let mut suppressed_by_class: BTreeMap<String, u64> = BTreeMap::new();
     let mut reported = Vec::new();
     let max_report = 12;
     for (class, list) in &by_class {
         if known_classes.contains(class) {
             suppressed_known += list.len() as u64;
+            suppressed_by_class.insert(class.clone(), list.len() as u64);
             continue;
         }
         if reported.len() >= max_report {
@@ -551,7 +557,8 @@ pub fn run_check(prop: &str, tier: Tier, seed: u64) -> i32 {
 
     // 5. evidence
     let wall = t0.elapsed().as_secs_f64();
-    let ev = crate::evidence::build(prop, tier, seed, runs, workers, &agg, wall, &known_lines, &violation_lines, suppressed_known, unconfirmed, other_property_deaths, &death_classes);
+    let mut ev = crate::evidence::build(prop, tier, seed, runs, workers, &agg, wall, &known_lines, &violation_lines, suppressed_known, unconfirmed, other_property_deaths, &death_classes);
+    ev["coverage"]["known_finding_occurrences_by_class"] = serde_json::to_value(&suppressed_by_class).unwrap_or_default();
     let path = format!("{VERIF_DIR}/evidence/{prop}.json");
     if let Err(e) = write_json(&path, &ev) {
         eprintln!("harness error: cannot write evidence: {e}");
